@@ -1,19 +1,18 @@
 SPECIFICATION MCSpec
 CONSTANTS Nib = {0, 1}
           KeyLen = 2
-          Vals = {10, 331}
+          Vals = {331}
           Pad = 0
           MaxKeys = 4
-          TrackHash = FALSE
-          MaxRoots = 0
-          MaxOps = 2
+          TrackHash = TRUE
+          MaxRoots = 3
           Mode = "mc"
           Depth = 0
           MaxGen = 0
           CommitWeight = 1
           NKeys = 3
-INVARIANTS MTreeInv TracerInv StoreExact
-PROPERTIES MechRefines CommitOK
+INVARIANTS TreeInv StoreExact ReadBackInv HashReadBackInv
+PROPERTIES CommitOK
 CONSTRAINT Small
 VIEW View
 CHECK_DEADLOCK FALSE
